@@ -118,6 +118,10 @@ CURATED = ['password123', 'Password2019!', 'bob@hotmail.com123', 'www.google.com
            'i<3u', '#1mom', 'No.1fan', 'abba1999abba', 'password', 'PASSword', 'İ@a.comX', 'İx.com1', 'aİb12', '2019', '19201',
            '12019', 'a.b@c.com.au!', 'x#12', '  lead', 'trail  ', 'ǅword', 'пароль123', 'γειά2020', '😀ab😀', 'mr.smith', 'Dr.who1999',
            '1q2w3e4r', 'zaq12wsx', 'asdfgh1', '!@#$%^', 'q1w2e3', '*0*', 'tom.com', 'a@b.c', 'info@x.org/', 'ftp.site.net:80']
+# a keyboard walk with text on both sides, only before, only after; two walks; a walk next to a year
+WALKS = ['1qaz', '2wsx', 'qwe1', '1q2w', 'zaq1', '!QAZ', '3edc', 'qaz1', 'asd1', '1qa2ws']
+CURATED += [pre + w + post for w in WALKS for pre in ('', 'test', 'Pm', 'b') for post in ('', 'test', '!!', 'm', '2019') if pre or post]
+CURATED += ['test1qaztest', 'abc1qaz!!', 'love2wsx2019', 'm1qazp2wsxm', '1qazm2wsx']
 
 
 def chk_pipeline(m, det, rng, tier):
